@@ -135,6 +135,13 @@ func cmdCheck(args []string) int {
 	c := &CheckCtx{P: p, Tier: *tier, Seed: seed, L: L, R: r, Extra: map[string]interface{}{}}
 	jobs := p.Jobs(*tier, seed)
 	c.Results = r.RunJobs(jobs)
+	if os.Getenv("ZSYM_SLOW") != "" {
+		rs := append([]JobResult(nil), c.Results...)
+		sort.Slice(rs, func(i, j int) bool { return rs[i].Wall > rs[j].Wall })
+		for i := 0; i < 15 && i < len(rs); i++ {
+			fmt.Fprintf(os.Stderr, "slow: %-40s %6.1fs paths=%d queries=%d\n", rs[i].Job.Label, rs[i].Wall.Seconds(), rs[i].Paths, rs[i].Queries)
+		}
+	}
 	c.evaluate()
 	if p.Post != nil {
 		p.Post(c)
@@ -325,7 +332,7 @@ func (c *CheckCtx) residualHolds(f Finding) bool {
 		for _, o := range jr.Obls {
 			if re.MatchString(o.Name) {
 				n++
-				if o.Verdict != "unsat" && o.Verdict != "trivial" {
+				if o.Verdict != "unsat" && o.Verdict != "trivial" && o.Verdict != "identity" {
 					return false
 				}
 			}
@@ -380,7 +387,7 @@ func (c *CheckCtx) crossSolvers() {
 					continue
 				}
 				checked++
-				if o.Verdict == "trivial" || b == "trivial" {
+				if o.Verdict == "trivial" || b == "trivial" || o.Verdict == "identity" || b == "identity" {
 					continue
 				}
 				if o.Verdict != b {
@@ -471,7 +478,7 @@ func writeEvidenceFailure(p *PropCheck, tier string, seed int64, msg string, wal
 
 func (c *CheckCtx) writeEvidence(wall time.Duration) {
 	queries, feas, paths, instrs, witnesses := 0, 0, 0, 0, 0
-	obls, discharged, trivial, undec, sat := 0, 0, 0, 0, 0
+	obls, discharged, trivial, undec, sat, identity := 0, 0, 0, 0, 0, 0
 	distinct := map[uint64]bool{}
 	var st time.Duration
 	maxTrace := 0
@@ -493,6 +500,12 @@ func (c *CheckCtx) writeEvidence(wall time.Duration) {
 			switch o.Verdict {
 			case "unsat":
 				discharged++
+				if o.NVars > 0 {
+					distinct[o.Hash] = true
+				}
+			case "identity":
+				discharged++
+				identity++
 				if o.NVars > 0 {
 					distinct[o.Hash] = true
 				}
@@ -542,11 +555,12 @@ func (c *CheckCtx) writeEvidence(wall time.Duration) {
 	cov := map[string]interface{}{
 		"evaluations":         queries,
 		"distinct_nontrivial": len(distinct),
-		"rule":                c.P.Rule + " — non-trivial = reached the solver with at least one free variable; distinct by structural hash of PC∧¬assertion",
+		"rule":                c.P.Rule + " — non-trivial = the obligation relates terms with at least one free variable and was discharged by the solver (unsat) or by syntactic identity of the hash-consed terms of the two sides; distinct by structural hash",
 		"samples":             samples,
 		"obligations":         obls,
 		"discharged":          discharged,
 		"trivially_true":      trivial,
+		"discharged_by_term_identity": identity,
 		"undecided":           undec + len(c.Undecided),
 		"counterexamples":     sat,
 		"jobs":                len(c.Results),
@@ -612,4 +626,27 @@ func cmdReplay(args []string) int {
 		return 1
 	}
 	return 0
+}
+
+func isHarnessFunc(full string) bool {
+	i := strings.LastIndex(full, ".")
+	n := full[i+1:]
+	return strings.HasPrefix(n, "v") || strings.HasPrefix(n, "V") || strings.HasPrefix(n, "spec")
+}
+
+// stepCallCycle looks for a cycle in the static call graph below (*CPU).Step.
+func stepCallCycle(L *Loaded) string {
+	pkg := L.pkgs["z80"]
+	if pkg == nil {
+		return ""
+	}
+	cpuT := pkg.Type("CPU")
+	if cpuT == nil {
+		return ""
+	}
+	step := L.prog.LookupMethod(typesPointer(cpuT.Type()), pkg.Pkg, "Step")
+	if step == nil {
+		return ""
+	}
+	return findCycle(step)
 }
